@@ -297,9 +297,14 @@ class Graph:
         return ids, moves
 
     def fast(self, force):
+        e = env()
         qc = copy.copy(self.template)
         qc.force_merge = force
-        return self.read(qc)
+        e.fg.fast_deepcopy(True)
+        try:
+            return self.read(qc)
+        finally:
+            e.fg.fast_deepcopy(False)
 
     def full(self, force):
         """Whole path, movements read back from the repository after the real
@@ -471,7 +476,7 @@ def run_cell(g, tab, force, acc, full=False, sampled=False, label=None):
         if extra['moved'] != exp_moves:
             bad = 'merge_queues'
             got_moves = extra['moved']
-        acc.seen('queued_prs_is_entry_order',
+        acc.seen('queued_prs_is_whole_queue',
                  sorted(extra['queued_prs']) == sorted(g.pr_ids))
         acc.seen('failed_prs_subset_of_queue',
                  set(extra['failed_prs']) <= set(g.pr_ids))
